@@ -1,5 +1,465 @@
 (* DBLemmas.v -- reusable facts about the database model (DB.v) and its abstraction (DBInv.v),
-   instantiated with the flat reference index.  HEADER-INDEX-PLACEHOLDER *)
+   instantiated with the flat reference index ([ops := flat_ops], [I := flat]).
+   Imported by DBProofsOps.v (operation theorems) and meant for the crash / recovery proofs.
+   No axioms.  [disk], [st], [mem], [fsev] below abbreviate [@DB.disk flat] etc.; [ins_fold] abbreviates
+   [fold_left (fun acc f => insert_dseg_seq f acc)] (these notations are local to this file).
+
+   Tactics exported: [consts] (poses the values of header_size, rec_overhead, max_key_len, max_val_len,
+   rec_max as equations, for lia; the constants themselves stay folded), [fa H y Hy] (instantiate a
+   [Forall] hypothesis [H] at [y] with [Hy : In y l], beta-reduced, as [Hfa]).
+   Importing this file also sets [Zify.zify_post_hook ::= Z.div_mod_to_equations].
+
+   Main new notions:
+     rec_of d id off        the record of segment [id] starting at [off] (what read_kv / slot_ok look at)
+     same_log d d'          same segment files up to the .psg.pmt side-file field
+     same_rest d d'         all other components of the disk equal
+     touches_log e          the events that change segment files proper (EAppend, and Create/Header/
+                            Remove/Trunc/Rename of an FSeg); touches_index, touches_lock, ... likewise
+     absl / ptrl            [abs] / [ptr_of] as folds over an arbitrary entry list
+     InvLog m d             DiskOK d /\ mem_disk_agree m d /\ ids_increasing /\ seq_order /\ cur_ok
+     mem_sim m m'           m' differs from m only in per-segment counters ("full" may get set)
+     wr_prelude / wr_tail   writeRecord split into "choose the segment" and "append"
+     wr_pre_shape pre id seq  the events writeRecord issues before the append:
+                            [] | [ESync _] | [ECreate (FSeg id seq); EHeader (FSeg id seq)] | [ESync _; ECreate ..; EHeader ..]
+     idx_agrees P seed idx d  = index_agrees without the mem record; khit kf k sl = key_eqb k (kf sl)
+
+   EXPORTED NAMES AND STATEMENTS (in file order)
+
+   == 0. Constants (kept folded in goals; these equations feed lia) ==
+   Lemma header_size_eq : header_size = 512
+   Lemma rec_overhead_eq : rec_overhead = 10
+   Lemma max_key_len_eq : max_key_len = 65535
+   Lemma max_val_len_eq : max_val_len = 536870912
+   Lemma rec_max_eq : rec_max = 536936457
+   Ltac fa
+   Ltac consts
+   Lemma rsize_eq r : rsize r = 10 + nlen (rk r) + nlen (rv r)
+   Lemma rsize_ge r : 10 <= rsize r
+   Lemma rsize_pos r : 0 < rsize r
+   Lemma rsize_le_max r : rec_fits r -> rsize r <= rec_max
+   Lemma rec_fits_mkput k v : Forall byte k -> Forall byte v -> nlen k <= max_key_len -> nlen v <=
+       max_val_len -> rec_fits (mkput k v)
+   Lemma rec_fits_mkdel k : Forall byte k -> nlen k <= max_key_len -> rec_fits (mkdel k)
+
+   == 1. with_offsets / rec_at / seg_entries ==
+   Lemma recs_len_nil : recs_len [] = 0
+   Lemma recs_len_cons r rs : recs_len (r :: rs) = rsize r + recs_len rs
+   Lemma recs_len_app a b : recs_len (a ++ b) = recs_len a + recs_len b
+   Lemma recs_len_snoc rs r : recs_len (rs ++ [r]) = recs_len rs + rsize r
+   Lemma with_offsets_nil o : with_offsets o [] = []
+   Lemma with_offsets_cons o r rs : with_offsets o (r :: rs) = (o, r) :: with_offsets (o + rsize r) rs
+   Lemma with_offsets_app o a b : with_offsets o (a ++ b) = with_offsets o a ++ with_offsets (o +
+       recs_len a) b
+   Lemma with_offsets_snoc o rs r : with_offsets o (rs ++ [r]) = with_offsets o rs ++ [(o + recs_len rs,
+       r)]
+   Lemma with_offsets_map_snd o rs : map snd (with_offsets o rs) = rs
+   Lemma with_offsets_length o rs : length (with_offsets o rs) = length rs
+   Lemma with_offsets_In_range o rs p r : In (p, r) (with_offsets o rs) -> o <= p /\ p + rsize r <= o +
+       recs_len rs
+   Lemma with_offsets_In_rec o rs p r : In (p, r) (with_offsets o rs) -> In r rs
+   Lemma with_offsets_sorted o rs : StronglySorted (fun a b => fst a + 10 <= fst b) (with_offsets o rs)
+   Lemma with_offsets_sorted_lt o rs : StronglySorted (fun a b => fst a < fst b) (with_offsets o rs)
+   Lemma with_offsets_inj o rs p r r' : In (p, r) (with_offsets o rs) -> In (p, r') (with_offsets o rs)
+       -> r = r'
+   Lemma with_offsets_NoDup_fst o rs : NoDup (map fst (with_offsets o rs))
+   Lemma rec_at_nil p : rec_at p [] = None
+   Lemma rec_at_cons p o r es : rec_at p ((o, r) :: es) = if o =? p then Some r else rec_at p es
+   Lemma rec_at_In p es r : rec_at p es = Some r -> In (p, r) es
+   Lemma rec_at_None p es : rec_at p es = None <-> (forall r, ~ In (p, r) es)
+   Lemma rec_at_with_offsets o rs p r : rec_at p (with_offsets o rs) = Some r <-> In (p, r)
+       (with_offsets o rs)
+   Lemma rec_at_app p a b : rec_at p (a ++ b) = match rec_at p a with Some r => Some r | None => rec_at
+       p b end
+   Lemma rec_at_out_of_range o rs p : p < o \/ o + recs_len rs <= p -> rec_at p (with_offsets o rs) =
+       None
+   Lemma rec_at_snoc_new o rs r : rec_at (o + recs_len rs) (with_offsets o (rs ++ [r])) = Some r
+   Lemma rec_at_snoc_old o rs r p r' : rec_at p (with_offsets o rs) = Some r' -> rec_at p (with_offsets
+       o (rs ++ [r])) = Some r'
+   Lemma rec_at_snoc o rs r p : rec_at p (with_offsets o (rs ++ [r])) = if p =? o + recs_len rs then
+       Some r else rec_at p (with_offsets o rs)
+   Lemma flen_clean f : f_hdr f = true -> f_tail f = [] -> flen f = header_size + recs_len (f_recs f)
+   Lemma seg_entries_In_rec f p r : In (p, r) (seg_entries f) -> In r (f_recs f)
+   Lemma seg_entries_range f p r : In (p, r) (seg_entries f) -> header_size <= p /\ p + rsize r <=
+       header_size + recs_len (f_recs f)
+
+   == 2. The part of the disk that reads depend on: [same_log]; frame lemmas for events ==
+   Definition rec_of (d : disk) (id off : N) : option rec
+   Definition seg_core (f : dseg) : N * N * bool * list rec * bytes
+   Definition same_log (d d' : disk) : Prop
+   Definition same_rest (d d' : disk) : Prop
+   Definition strip (f : dseg) : dseg
+   Definition olog_of (l : list dseg) : list entry
+   Lemma olog_eq d : olog d = olog_of (d_segs d)
+   Lemma same_log_refl d : same_log d d
+   Lemma same_log_sym d d' : same_log d d' -> same_log d' d
+   Lemma same_log_trans a b c : same_log a b -> same_log b c -> same_log a c
+   Lemma same_log_segs d d' : d_segs d' = d_segs d -> same_log d d'
+   Lemma same_rest_refl d : same_rest d d
+   Lemma same_rest_trans a b c : same_rest a b -> same_rest b c -> same_rest a c
+   Lemma same_log_strip d d' : same_log d d' -> map strip (d_segs d) = map strip (d_segs d')
+   Lemma seg_core_inv f f' : seg_core f' = seg_core f -> f_id f' = f_id f /\ f_seq f' = f_seq f /\ f_hdr
+       f' = f_hdr f /\ f_recs f' = f_recs f /\ f_tail f' = f_tail f /\ flen f' = flen f /\ seg_entries
+       f' = seg_entries f
+   Lemma same_log_In d d' f : same_log d d' -> In f (d_segs d) -> exists f', In f' (d_segs d') /\
+       seg_core f' = seg_core f
+   Lemma insert_dseg_seq_map (F : dseg -> dseg) f l : (forall x, f_seq (F x) = f_seq x) ->
+       insert_dseg_seq (F f) (map F l) = map F (insert_dseg_seq f l)
+   Lemma dby_seq_fold_map (F : dseg -> dseg) l : (forall x, f_seq (F x) = f_seq x) -> forall acc,
+       fold_left (fun acc f => insert_dseg_seq f acc) (map F l) (map F acc) = map F (fold_left (fun acc
+       f => insert_dseg_seq f acc) l acc)
+   Lemma dby_seq_map (F : dseg -> dseg) l : (forall x, f_seq (F x) = f_seq x) -> dby_seq (map F l) = map
+       F (dby_seq l)
+   Lemma olog_of_map (F : dseg -> dseg) l : (forall x, f_seq (F x) = f_seq x) -> (forall x, dseg_entries
+       (F x) = dseg_entries x) -> olog_of (map F l) = olog_of l
+   Lemma olog_of_strip l : olog_of (map strip l) = olog_of l
+   Lemma same_log_olog d d' : same_log d d' -> olog d' = olog d
+   Lemma same_log_abs d d' : same_log d d' -> abs d' = abs d
+   Lemma same_log_ptr_of d d' : same_log d d' -> ptr_of d' = ptr_of d
+   Lemma find_dseg_In id (d : disk) f : find_dseg id d = Some f -> In f (d_segs d) /\ f_id f = id
+   Lemma find_dseg_None id (d : disk) : find_dseg id d = None <-> (forall f, In f (d_segs d) -> f_id f
+       <> id)
+   Lemma find_id_unique (l : list dseg) f : NoDup (map f_id l) -> In f l -> find (fun s => f_id s =?
+       f_id f) l = Some f
+   Lemma find_dseg_unique (d : disk) f : NoDup (map f_id (d_segs d)) -> In f (d_segs d) -> find_dseg
+       (f_id f) d = Some f
+   Lemma find_dseg_segs (d d' : disk) id : d_segs d' = d_segs d -> find_dseg id d' = find_dseg id d
+   Lemma find_map_id (F : dseg -> dseg) id (l : list dseg) : (forall s, f_id (F s) = f_id s) -> find
+       (fun s => f_id s =? id) (map F l) = option_map F (find (fun s => f_id s =? id) l)
+   Lemma find_dseg_upd_seg id seq g (d : disk) id' : (forall s, f_id (g s) = f_id s) -> find_dseg id'
+       (upd_seg id seq g d) = option_map (fun s => if is_seg id seq s then g s else s) (find_dseg id' d)
+   Lemma find_dseg_upd_seg_other id seq g (d : disk) id' : (forall s, f_id (g s) = f_id s) -> id' <> id
+       -> find_dseg id' (upd_seg id seq g d) = find_dseg id' d
+   Lemma find_dseg_upd_seg_same id seq g (d : disk) f : (forall s, f_id (g s) = f_id s) -> find_dseg id
+       d = Some f -> f_seq f = seq -> find_dseg id (upd_seg id seq g d) = Some (g f)
+   Lemma d_segs_upd_seg id seq g (d : disk) : d_segs (upd_seg id seq g d) = map (fun s => if is_seg id
+       seq s then g s else s) (d_segs d)
+   Lemma upd_seg_same_rest id seq g (d : disk) : same_rest d (upd_seg id seq g d)
+   Lemma upd_seg_same_log id seq g (d : disk) : (forall s, seg_core (g s) = seg_core s) -> same_log d
+       (upd_seg id seq g d)
+   Lemma same_log_rec_of d d' id off : same_log d d' -> rec_of d' id off = rec_of d id off
+   Lemma read_kv_rec_of (d : disk) sl : read_kv d sl = option_map (fun r => (ntake (sl_ks sl) (rk r ++
+       rv r), ntake (sl_vs sl) (ndrop (sl_ks sl) (rk r ++ rv r)))) (rec_of d (sl_seg sl) (sl_off sl))
+   Lemma same_log_read_kv d d' sl : same_log d d' -> read_kv d' sl = read_kv d sl
+   Lemma same_log_matchf d d' k sl : same_log d d' -> matchf d' k sl = matchf d k sl
+   Lemma same_log_slot_key d d' sl : same_log d d' -> slot_key d' sl = slot_key d sl
+   Lemma slot_ok_rec_of P (d : disk) seed sl : slot_ok P d seed sl <-> exists r, rec_of d (sl_seg sl)
+       (sl_off sl) = Some r /\ rdel r = false /\ sl_ks sl = nlen (rk r) /\ sl_vs sl = nlen (rv r) /\
+       sl_h sl = p_hash P seed (rk r)
+   Lemma same_log_slot_ok P d d' seed sl : same_log d d' -> slot_ok P d seed sl -> slot_ok P d' seed sl
+   Lemma dseg_ok_core f f' : seg_core f' = seg_core f -> dseg_ok f -> dseg_ok f'
+   Lemma same_log_ids d d' : same_log d d' -> map f_id (d_segs d') = map f_id (d_segs d)
+   Lemma same_log_seqs d d' : same_log d d' -> map f_seq (d_segs d') = map f_seq (d_segs d)
+   Lemma same_log_DiskOK d d' : same_log d d' -> DiskOK d -> DiskOK d'
+   Lemma same_log_mem_disk_agree (m : mem) d d' : same_log d d' -> mem_disk_agree m d -> mem_disk_agree
+       m d'
+   Definition touches_log (e : fsev) : bool
+   Lemma set_fmeta_core g s : seg_core (set_fmeta g s) = seg_core s
+   Lemma file_removed_same_log f (d : disk) : match f with FSeg _ _ => False | _ => True end -> same_log
+       d (file_removed f d)
+   Theorem apply_ev_same_log (d : disk) e : touches_log e = false -> same_log d (apply_ev flat_ops d e)
+   Lemma apply_ev_append_rest (d : disk) id seq off r : same_rest d (apply_ev flat_ops d (EAppend id seq
+       off r))
+   Lemma apply_ev_create_seg_rest (d : disk) id seq : same_rest d (apply_ev flat_ops d (ECreate (FSeg id
+       seq)))
+   Lemma apply_ev_header_rest (d : disk) f : same_rest d (apply_ev flat_ops d (EHeader f))
+   Lemma apply_ev_trunc_seg_rest (d : disk) id seq n : same_rest d (apply_ev flat_ops d (ETrunc (FSeg id
+       seq) n))
+   Lemma apply_ev_sync (d : disk) f : apply_ev flat_ops d (ESync f) = d
+   Lemma apply_ev_header_nonseg (d : disk) f : match f with FSeg _ _ => False | _ => True end ->
+       apply_ev flat_ops d (EHeader f) = d
+   Lemma apply_ev_append (d : disk) id seq off r : apply_ev flat_ops d (EAppend id seq off r) = upd_seg
+       id seq (append_seg off r) d
+   Lemma apply_ev_index (d : disk) i : apply_ev flat_ops d (EIndex i) = set_index d (Some i)
+   Lemma d_segs_create_seg (d : disk) id seq : d_segs (apply_ev flat_ops d (ECreate (FSeg id seq))) =
+       d_segs d ++ [{| f_id := id; f_seq := seq; f_hdr := false; f_recs := []; f_tail := []; f_meta :=
+       GAbsent |}]
+   Lemma d_segs_remove_seg (d : disk) id seq : d_segs (apply_ev flat_ops d (ERemove (FSeg id seq))) =
+       filter (fun s => negb (is_seg id seq s)) (d_segs d)
+   Lemma d_segs_index (d : disk) i : d_segs (apply_ev flat_ops d (EIndex i)) = d_segs d
+   Lemma d_index_index (d : disk) i : d_index (apply_ev flat_ops d (EIndex i)) = Some i
+   Lemma apply_ev_index_frame (d : disk) i : let d' := apply_ev flat_ops d (EIndex i) in d_segs d' =
+       d_segs d /\ d_orphans d' = d_orphans d /\ d_overflow d' = d_overflow d /\ d_imeta d' = d_imeta d
+       /\ d_dbmeta d' = d_dbmeta d /\ d_lock d' = d_lock d /\ d_bac d' = d_bac d
+   Lemma s_disk_emit e (s : st) : s_disk (emit flat_ops e s) = apply_ev flat_ops (s_disk s) e
+   Lemma s_mem_emit e (s : st) : s_mem (emit flat_ops e s) = s_mem s
+   Lemma s_trace_emit e (s : st) : s_trace (emit flat_ops e s) = s_trace s ++ [e]
+
+   == 3. dby_seq and olog ==
+   Lemma insert_dseg_seq_perm f l : Permutation (insert_dseg_seq f l) (f :: l)
+   Lemma ins_fold_perm l : forall acc, Permutation (ins_fold l acc) (acc ++ l)
+   Theorem dby_seq_perm l : Permutation (dby_seq l) l
+   Lemma dby_seq_In l f : In f (dby_seq l) <-> In f l
+   Lemma insert_dseg_seq_In f l x : In x (insert_dseg_seq f l) <-> x = f \/ In x l
+   Lemma insert_dseg_seq_sorted f l : StronglySorted (fun a b => f_seq a <= f_seq b) l -> StronglySorted
+       (fun a b => f_seq a <= f_seq b) (insert_dseg_seq f l)
+   Lemma ins_fold_sorted l : forall acc, StronglySorted (fun a b => f_seq a <= f_seq b) acc ->
+       StronglySorted (fun a b => f_seq a <= f_seq b) (ins_fold l acc)
+   Theorem dby_seq_sorted l : StronglySorted (fun a b => f_seq a <= f_seq b) (dby_seq l)
+   Lemma sorted_le_lt (l : list dseg) : NoDup (map f_seq l) -> StronglySorted (fun a b => f_seq a <=
+       f_seq b) l -> StronglySorted (fun a b => f_seq a < f_seq b) l
+   Theorem dby_seq_sorted_lt l : NoDup (map f_seq l) -> StronglySorted (fun a b => f_seq a < f_seq b)
+       (dby_seq l)
+   Lemma dby_seq_snoc l f : dby_seq (l ++ [f]) = insert_dseg_seq f (dby_seq l)
+   Lemma insert_dseg_seq_max f l : (forall x, In x l -> f_seq x <= f_seq f) -> insert_dseg_seq f l = l
+       ++ [f]
+   Lemma insert_dseg_seq_below x l f : f_seq x < f_seq f -> insert_dseg_seq x (l ++ [f]) =
+       insert_dseg_seq x l ++ [f]
+   Lemma ins_fold_below l f : forall acc, (forall x, In x l -> f_seq x < f_seq f) -> ins_fold l (acc ++
+       [f]) = ins_fold l acc ++ [f]
+   Theorem dby_seq_max_last l f : NoDup l -> In f l -> (forall x, In x l -> x <> f -> f_seq x < f_seq f)
+       -> exists pre, dby_seq l = pre ++ [f] /\ Permutation (pre ++ [f]) l
+   Lemma sorted_lt_perm_eq (l1 : list dseg) : forall l2, StronglySorted (fun a b => f_seq a < f_seq b)
+       l1 -> StronglySorted (fun a b => f_seq a < f_seq b) l2 -> Permutation l1 l2 -> l1 = l2
+   Theorem dby_seq_unique l L : NoDup (map f_seq l) -> StronglySorted (fun a b => f_seq a < f_seq b) L
+       -> Permutation L l -> dby_seq l = L
+   Lemma sorted_filter {A} (R : A -> A -> Prop) p (l : list A) : StronglySorted R l -> StronglySorted R
+       (filter p l)
+   Lemma Permutation_filter {A} p (l l' : list A) : Permutation l l' -> Permutation (filter p l) (filter
+       p l')
+   Lemma NoDup_map_filter {A B} (f : A -> B) p (l : list A) : NoDup (map f l) -> NoDup (map f (filter p
+       l))
+   Theorem dby_seq_filter p l : NoDup (map f_seq l) -> dby_seq (filter p l) = filter p (dby_seq l)
+   Lemma dseg_entries_In f e : In e (dseg_entries f) <-> fst (fst e) = f_id f /\ In (snd (fst e), snd e)
+       (seg_entries f)
+   Theorem olog_In (d : disk) id off r : In (id, off, r) (olog d) <-> exists f, In f (d_segs d) /\ f_id
+       f = id /\ In (off, r) (seg_entries f)
+   Theorem rec_of_olog (d : disk) id off r : NoDup (map f_id (d_segs d)) -> (rec_of d id off = Some r
+       <-> In (id, off, r) (olog d))
+   Lemma olog_rec_fits (d : disk) id off r : DiskOK d -> In (id, off, r) (olog d) -> rec_fits r
+   Lemma rec_of_rec_fits (d : disk) id off r : DiskOK d -> rec_of d id off = Some r -> rec_fits r
+   Lemma dseg_entries_append off r f : dseg_entries (append_seg off r f) = dseg_entries f ++ [(f_id f,
+       header_size + recs_len (f_recs f), r)]
+   Lemma concat_map_snoc {A B} (g : A -> list B) l x : concat (map g (l ++ [x])) = concat (map g l) ++ g
+       x
+   Theorem olog_append (d : disk) id seq off r f : NoDup (map f_id (d_segs d)) -> In f (d_segs d) ->
+       f_id f = id -> f_seq f = seq -> (forall x, In x (d_segs d) -> x <> f -> f_seq x < f_seq f) ->
+       olog (apply_ev flat_ops d (EAppend id seq off r)) = olog d ++ [(id, header_size + recs_len
+       (f_recs f), r)]
+   Lemma concat_insert_empty f l : dseg_entries f = [] -> concat (map dseg_entries (insert_dseg_seq f
+       l)) = concat (map dseg_entries l)
+   Lemma olog_of_snoc_empty l f : f_recs f = [] -> olog_of (l ++ [f]) = olog_of l
+   Theorem olog_create_seg (d : disk) id seq : olog (apply_ev flat_ops d (ECreate (FSeg id seq))) = olog
+       d
+   Theorem olog_header (d : disk) f : olog (apply_ev flat_ops d (EHeader f)) = olog d
+   Corollary olog_create_header (d : disk) id seq : olog (apply_ev flat_ops (apply_ev flat_ops d
+       (ECreate (FSeg id seq))) (EHeader (FSeg id seq))) = olog d
+   Theorem olog_remove_seg (d : disk) id seq : NoDup (map f_seq (d_segs d)) -> olog (apply_ev flat_ops d
+       (ERemove (FSeg id seq))) = concat (map dseg_entries (filter (fun s => negb (is_seg id seq s))
+       (dby_seq (d_segs d))))
+   Lemma filter_all {A} (q : A -> bool) l : (forall y, In y l -> q y = true) -> filter q l = l
+   Lemma filter_none {A} (q : A -> bool) l : (forall y, In y l -> q y = false) -> filter q l = []
+   Lemma concat_map_filter {A B} (g : A -> list B) p q (l : list A) : (forall x, In x l -> forall y, In
+       y (g x) -> q y = p x) -> concat (map g (filter p l)) = filter q (concat (map g l))
+   Corollary olog_remove_seg_ids (d : disk) id seq : NoDup (map f_seq (d_segs d)) -> (forall x, In x
+       (d_segs d) -> f_id x = id -> f_seq x = seq) -> olog (apply_ev flat_ops d (ERemove (FSeg id seq)))
+       = filter (fun e => negb (fst (fst e) =? id)) (olog d)
+
+   == 4. The specification maps; abs and ptr_of as folds ==
+   Lemma key_eqb_sym a b : key_eqb a b = key_eqb b a
+   Lemma sget_sdel m k k' : sget (sdel m k) k' = if key_eqb k' k then None else sget m k'
+   Lemma sget_sput m k v k' : sget (sput m k v) k' = if key_eqb k' k then Some v else sget m k'
+   Lemma sdel_In m k x v : In (x, v) (sdel m k) <-> In (x, v) m /\ x <> k
+   Lemma sdel_keys m k x : In x (map fst (sdel m k)) <-> In x (map fst m) /\ x <> k
+   Lemma NoDup_sdel m k : NoDup (map fst m) -> NoDup (map fst (sdel m k))
+   Lemma NoDup_sput m k v : NoDup (map fst m) -> NoDup (map fst (sput m k v))
+   Lemma sget_None m k : sget m k = None <-> ~ In k (map fst m)
+   Lemma sget_In m k v : NoDup (map fst m) -> (sget m k = Some v <-> In (k, v) m)
+   Lemma shas_sget m k : shas m k = match sget m k with Some _ => true | None => false end
+   Definition absl (l : list entry) : smap
+   Definition ptrl (l : list entry) : key -> option (N * N)
+   Lemma abs_eq d : abs d = absl (olog d)
+   Lemma ptr_of_eq d : ptr_of d = ptrl (olog d)
+   Lemma absl_snoc l e : absl (l ++ [e]) = apply_rec (absl l) e
+   Lemma ptrl_snoc l e : ptrl (l ++ [e]) = upd_ptr (ptrl l) e
+   Theorem abs_snoc d d' e : olog d' = olog d ++ [e] -> abs d' = apply_rec (abs d) e
+   Theorem ptr_of_snoc d d' e : olog d' = olog d ++ [e] -> ptr_of d' = upd_ptr (ptr_of d) e
+   Lemma sget_apply_rec m e k : sget (apply_rec m e) k = if key_eqb k (rk (snd e)) then (if rdel (snd e)
+       then None else Some (rv (snd e))) else sget m k
+   Lemma NoDup_apply_rec m e : NoDup (map fst m) -> NoDup (map fst (apply_rec m e))
+   Lemma absl_NoDup l : NoDup (map fst (absl l))
+   Theorem abs_NoDup d : NoDup (map fst (abs d))
+   Lemma ptrl_absl l k : (forall id off, ptrl l k = Some (id, off) -> exists r, In (id, off, r) l /\ rk
+       r = k /\ rdel r = false /\ sget (absl l) k = Some (rv r)) /\ (ptrl l k = None -> sget (absl l) k
+       = None)
+   Theorem ptr_of_Some d k id off : ptr_of d k = Some (id, off) -> exists r, In (id, off, r) (olog d) /\
+       rk r = k /\ rdel r = false /\ sget (abs d) k = Some (rv r)
+   Theorem ptr_of_None d k : ptr_of d k = None -> sget (abs d) k = None
+   Corollary ptr_of_None_iff d k : ptr_of d k = None <-> sget (abs d) k = None
+   Lemma upd_ptr_eq p e k : upd_ptr p e k = if key_eqb k (rk (snd e)) then (if rdel (snd e) then None
+       else Some (fst (fst e), snd (fst e))) else p k
+
+   == 5. In-memory segment list ==
+   Lemma NoDup_map_inj {A B} (h : A -> B) l a b : NoDup (map h l) -> In a l -> In b l -> h a = h b -> a
+       = b
+   Lemma ids_increasing_NoDup l : ids_increasing l -> NoDup (map g_id l)
+   Lemma ids_increasing_unique l a b : ids_increasing l -> In a l -> In b l -> g_id a = g_id b -> a = b
+   Lemma find_mseg_In id l g : find_mseg id l = Some g -> In g l /\ g_id g = id
+   Lemma find_mseg_None id l : find_mseg id l = None -> forall g, In g l -> g_id g <> id
+   Lemma find_mseg_unique l g : ids_increasing l -> In g l -> find_mseg (g_id g) l = Some g
+   Lemma In_upd_mseg id F l g' : In g' (upd_mseg id F l) <-> exists g, In g l /\ g' = if g_id g =? id
+       then F g else g
+   Lemma ids_increasing_map (F : mseg -> mseg) l : (forall g, g_id (F g) = g_id g) -> ids_increasing l
+       -> ids_increasing (map F l)
+   Lemma insert_mseg_In g l x : In x (insert_mseg g l) <-> x = g \/ In x l
+   Lemma insert_mseg_increasing g l : ids_increasing l -> (forall x, In x l -> g_id x <> g_id g) ->
+       ids_increasing (insert_mseg g l)
+   Lemma lowest_free_spec l : forall n, ids_increasing l -> (forall g, In g l -> n <= g_id g) -> n <=
+       lowest_free n l /\ forall g, In g l -> g_id g <> lowest_free n l
+   Lemma lowest_free_fresh l g : ids_increasing l -> In g l -> g_id g <> lowest_free 0 l
+   Lemma cur_seg_Some (m : mem) g : cur_seg m = Some g -> m_cur_removed m = false /\ In g (m_segs m) /\
+       g_id g = fst (m_cur m) /\ g_seq g = snd (m_cur m)
+   Lemma cur_seg_intro (m : mem) g : ids_increasing (m_segs m) -> m_cur_removed m = false -> In g
+       (m_segs m) -> m_cur m = (g_id g, g_seq g) -> cur_seg m = Some g
+   Definition InvLog (m : mem) (d : disk) : Prop
+   Lemma Inv_InvLog P (s : st) m : s_mem s = Some m -> Inv P s -> InvLog m (s_disk s)
+   Lemma InvLog_same_log (m : mem) d d' : same_log d d' -> InvLog m d -> InvLog m d'
+   Definition mseg_sim (g g' : mseg) : Prop
+   Definition mem_sim (m m' : mem) : Prop
+   Lemma mseg_sim_refl g : mseg_sim g g
+   Lemma mem_sim_refl (m : mem) : mem_sim m m
+   Lemma mem_sim_trans (a b c : mem) : mem_sim a b -> mem_sim b c -> mem_sim a c
+   Lemma mem_sim_upd_mseg (m : mem) id F : (forall g, mseg_sim g (F g)) -> mem_sim m (set_msegs m
+       (upd_mseg id F (m_segs m)))
+   Lemma mem_sim_set_idx (m : mem) i : mem_sim m (set_idx m i)
+   Lemma mem_sim_InvLog (m m' : mem) d : mem_sim m m' -> InvLog m d -> InvLog m' d
+   Lemma mem_sim_room (m m' : mem) : mem_sim m m' -> room m -> room m'
+   Lemma mem_sim_track_del sl (m : mem) : mem_sim m (track_del sl m)
+   Lemma mem_sim_add_delbytes id n (m : mem) : mem_sim m (add_delbytes id n m)
+   Theorem track_del_InvLog sl (m : mem) d : InvLog m d -> InvLog (track_del sl m) d
+   Theorem track_del_room sl (m : mem) : room m -> room (track_del sl m)
+   Theorem add_delbytes_InvLog id n (m : mem) d : InvLog m d -> InvLog (add_delbytes id n m) d
+   Theorem add_delbytes_room id n (m : mem) : room m -> room (add_delbytes id n m)
+   Lemma set_idx_InvLog i (m : mem) d : InvLog m d -> InvLog (set_idx m i) d
+   Lemma track_del_idx sl (m : mem) : m_idx (track_del sl m) = m_idx m /\ m_seed (track_del sl m) =
+       m_seed m
+   Lemma add_delbytes_idx id n (m : mem) : m_idx (add_delbytes id n m) = m_idx m /\ m_seed (add_delbytes
+       id n m) = m_seed m
+
+   == 6. datalog.writeRecord ==
+   Lemma flen_append off r f : f_hdr f = true -> flen (append_seg off r f) = flen f + rsize r
+   Lemma tail_stuck_nil : tail_stuck []
+   Lemma dseg_ok_append off r f : dseg_ok f -> rec_fits r -> f_hdr f = true -> header_size + recs_len
+       (f_recs f) + rsize r < 4294967296 -> dseg_ok (append_seg off r f)
+   Lemma count_rec_full r sm : sm_full (count_rec r sm) = sm_full sm
+   Lemma append_step (m : mem) (d : disk) r g : InvLog m d -> room m -> rec_fits r -> cur_seg m = Some g
+       -> sm_full (g_meta g) = false -> exists f, find_dseg (g_id g) d = Some f /\ f_seq f = g_seq g /\
+       flen f = g_size g /\ g_size g < 4294967296 /\ let d' := apply_ev flat_ops d (EAppend (g_id g)
+       (g_seq g) (g_size g) r) in let m' := set_msegs m (upd_mseg (g_id g) (fun x => set_gmeta
+       (set_gsize x (g_size g + rsize r)) (count_rec r (g_meta x))) (m_segs m)) in InvLog m' d' /\ olog
+       d' = olog d ++ [(g_id g, g_size g, r)] /\ rec_of d' (g_id g) (g_size g) = Some r
+   Lemma NoDup_snoc {A} (l : list A) x : NoDup l -> ~ In x l -> NoDup (l ++ [x])
+   Lemma s_disk_emits es (s : st) : s_disk (emits flat_ops es s) = fold_left (apply_ev flat_ops) es
+       (s_disk s)
+   Lemma s_mem_emits es (s : st) : s_mem (emits flat_ops es s) = s_mem s
+   Lemma s_trace_emits es (s : st) : s_trace (emits flat_ops es s) = s_trace s ++ es
+   Lemma seal_spec (s : st) (m : mem) g : ids_increasing (m_segs m) -> In g (m_segs m) -> exists s0 m0
+       pre, seal flat_ops (g_id g) s m = (s0, m0) /\ mem_sim m m0 /\ m_idx m0 = m_idx m /\ m_seed m0 =
+       m_seed m /\ s_disk s0 = s_disk s /\ s_mem s0 = s_mem s /\ s_trace s0 = s_trace s ++ pre /\ (pre =
+       [] \/ pre = [ESync (FSeg (g_id g) (g_seq g))])
+   Lemma swap_spec (s : st) (m : mem) : InvLog m (s_disk s) -> room m -> exists s1 m1 g pre,
+       swap_segment flat_ops s m = (s1, m1) /\ InvLog m1 (s_disk s1) /\ room m1 /\ cur_seg m1 = Some g
+       /\ sm_full (g_meta g) = false /\ olog (s_disk s1) = olog (s_disk s) /\ same_rest (s_disk s)
+       (s_disk s1) /\ s_mem s1 = s_mem s /\ m_idx m1 = m_idx m /\ m_seed m1 = m_seed m /\ s_trace s1 =
+       s_trace s ++ pre /\ s_disk s1 = fold_left (apply_ev flat_ops) pre (s_disk s) /\ (pre = [] \/ pre
+       = [ECreate (FSeg (g_id g) (g_seq g)); EHeader (FSeg (g_id g) (g_seq g))])
+   Definition wr_pre_shape (pre : list fsev) (id seq : N) : Prop
+   Definition wr_prelude (P : params) (r : rec) (s : st) (m : mem) : st * mem
+   Definition wr_tail (r : rec) (s1 : st) (m1 : mem) : option (st * mem * N * N)
+   Lemma write_record_eq P r (s : st) (m : mem) : write_record flat_ops P r s m = let '(s1, m1) :=
+       wr_prelude P r s m in wr_tail r s1 m1
+   Lemma wr_prelude_spec P r (s : st) (m : mem) : InvLog m (s_disk s) -> room m -> exists s1 m1 g pre,
+       wr_prelude P r s m = (s1, m1) /\ InvLog m1 (s_disk s1) /\ room m1 /\ cur_seg m1 = Some g /\
+       sm_full (g_meta g) = false /\ olog (s_disk s1) = olog (s_disk s) /\ same_rest (s_disk s) (s_disk
+       s1) /\ s_mem s1 = s_mem s /\ m_idx m1 = m_idx m /\ m_seed m1 = m_seed m /\ s_trace s1 = s_trace s
+       ++ pre /\ s_disk s1 = fold_left (apply_ev flat_ops) pre (s_disk s) /\ wr_pre_shape pre (g_id g)
+       (g_seq g)
+   Theorem write_record_spec P r (s : st) (m : mem) : params_ok P -> InvLog m (s_disk s) -> room m ->
+       rec_fits r -> exists s' m' id off, write_record flat_ops P r s m = Some (s', m', id, off) /\
+       InvLog m' (s_disk s') /\ olog (s_disk s') = olog (s_disk s) ++ [(id, off, r)] /\ off < 4294967296
+       /\ rec_of (s_disk s') id off = Some r /\ (exists f, find_dseg id (s_disk s') = Some f /\ rec_at
+       off (seg_entries f) = Some r) /\ (forall id' off' r', rec_of (s_disk s) id' off' = Some r' ->
+       rec_of (s_disk s') id' off' = Some r') /\ (forall sl kv, read_kv (s_disk s) sl = Some kv ->
+       read_kv (s_disk s') sl = Some kv) /\ m_idx m' = m_idx m /\ m_seed m' = m_seed m /\ s_mem s' =
+       s_mem s /\ same_rest (s_disk s) (s_disk s') /\ exists seq pre, s_trace s' = s_trace s ++ pre ++
+       [EAppend id seq off r] /\ s_disk s' = fold_left (apply_ev flat_ops) (pre ++ [EAppend id seq off
+       r]) (s_disk s) /\ olog (fold_left (apply_ev flat_ops) pre (s_disk s)) = olog (s_disk s) /\
+       same_rest (s_disk s) (fold_left (apply_ev flat_ops) pre (s_disk s)) /\ wr_pre_shape pre id seq
+
+   == 7. The index (flat) and the log ==
+   Definition khit (kf : slot -> key) (k : key) (sl : slot) : bool
+   Definition idx_agrees (P : params) (seed : N) (idx : flat) (d : disk) : Prop
+   Lemma index_agrees_eq P (m : mem) d : index_agrees P m d = idx_agrees P (m_seed m) (m_idx m) d
+   Lemma slot_ok_read P (d : disk) seed sl : slot_ok P d seed sl -> exists r, rec_of d (sl_seg sl)
+       (sl_off sl) = Some r /\ rdel r = false /\ sl_ks sl = nlen (rk r) /\ sl_vs sl = nlen (rv r) /\
+       sl_h sl = p_hash P seed (rk r) /\ read_kv d sl = Some (rk r, rv r) /\ slot_key d sl = rk r
+   Lemma hit_key P (d : disk) seed k sl : DiskOK d -> slot_ok P d seed sl -> fl_hit (p_hash P seed k)
+       (matchf d k) sl = khit (slot_key d) k sl
+   Lemma find_ext_in {A} (p q : A -> bool) l : (forall x, In x l -> p x = q x) -> find p l = find q l
+   Lemma fl_replace_ext_in p q new l : (forall x, In x l -> p x = q x) -> fl_replace p new l =
+       fl_replace q new l
+   Lemma fl_remove_ext_in p q l : (forall x, In x l -> p x = q x) -> fl_remove p l = fl_remove q l
+   Lemma find_khit_None kf k l : find (khit kf k) l = None <-> ~ In k (map kf l)
+   Lemma find_khit_Some kf k l sl : find (khit kf k) l = Some sl -> In sl l /\ kf sl = k
+   Lemma find_khit_In kf l sl : NoDup (map kf l) -> In sl l -> find (khit kf (kf sl)) l = Some sl
+   Lemma fl_replace_Some kf k new l : forall l' o, kf new = k -> fl_replace (khit kf k) new l = Some
+       (l', o) -> In o l /\ kf o = k /\ map kf l' = map kf l /\ (forall x, In x l' -> x = new \/ In x l)
+       /\ (forall k', find (khit kf k') l' = if key_eqb k' k then Some new else find (khit kf k') l)
+   Lemma fl_replace_None p new l : fl_replace p new l = None -> forall x, In x l -> p x = false
+   Lemma find_app {A} (p : A -> bool) l1 l2 : find p (l1 ++ l2) = match find p l1 with Some x => Some x
+       | None => find p l2 end
+   Lemma find_khit_snoc kf k new l k' : (forall x, In x l -> khit kf k x = false) -> kf new = k -> find
+       (khit kf k') (l ++ [new]) = if key_eqb k' k then Some new else find (khit kf k') l
+   Lemma fl_remove_Some kf k l : forall l' o, NoDup (map kf l) -> fl_remove (khit kf k) l = Some (l', o)
+       -> In o l /\ kf o = k /\ (forall x, In x l' -> In x l) /\ NoDup (map kf l') /\ (forall k', find
+       (khit kf k') l' = if key_eqb k' k then None else find (khit kf k') l)
+   Lemma fl_remove_None p l : fl_remove p l = None -> forall x, In x l -> p x = false
+   Lemma slot_keep P (d d1 : disk) seed sl : (forall id off r, rec_of d id off = Some r -> rec_of d1 id
+       off = Some r) -> slot_ok P d seed sl -> slot_ok P d1 seed sl /\ read_kv d1 sl = read_kv d sl /\
+       slot_key d1 sl = slot_key d sl
+   Lemma idx_keys_keep P (d d1 : disk) seed idx : (forall id off r, rec_of d id off = Some r -> rec_of
+       d1 id off = Some r) -> Forall (slot_ok P d seed) idx -> Forall (slot_ok P d1 seed) idx /\ map
+       (slot_key d1) idx = map (slot_key d) idx /\ (forall k, find (khit (slot_key d1) k) idx = find
+       (khit (slot_key d) k) idx)
+   Lemma idx_get_find P seed idx (d : disk) k : DiskOK d -> Forall (slot_ok P d seed) idx -> fl_get idx
+       (p_hash P seed k) (matchf d k) = find (khit (slot_key d) k) idx
+   Theorem idx_lookup P seed idx (d : disk) k : DiskOK d -> idx_agrees P seed idx d -> match find (khit
+       (slot_key d) k) idx with | None => sget (abs d) k = None | Some sl => In sl idx /\ exists v,
+       read_kv d sl = Some (k, v) /\ sget (abs d) k = Some v end
+
+   == 8. Frame table: for every component of the disk, the events that can change it ==
+   Definition touches_index (e : fsev) : bool
+   Definition touches_overflow (e : fsev) : bool
+   Definition touches_imeta (e : fsev) : bool
+   Definition touches_dbmeta (e : fsev) : bool
+   Definition touches_lock (e : fsev) : bool
+   Definition touches_bac (e : fsev) : bool
+   Definition touches_orphans (e : fsev) : bool
+   Lemma file_removed_frame f (d : disk) : (match f with FMain => True | _ => d_index (file_removed f d)
+       = d_index d end) /\ (match f with FOverflow => True | _ => d_overflow (file_removed f d) =
+       d_overflow d end) /\ (match f with FIndexMeta => True | _ => d_imeta (file_removed f d) = d_imeta
+       d end) /\ (match f with FDbMeta => True | _ => d_dbmeta (file_removed f d) = d_dbmeta d end) /\
+       (match f with FLock => True | _ => d_lock (file_removed f d) = d_lock d end) /\ (match f with
+       FBac _ => True | _ => d_bac (file_removed f d) = d_bac d end) /\ (match f with FSeg _ _ |
+       FSegMeta _ _ => True | _ => d_orphans (file_removed f d) = d_orphans d end)
+   Theorem apply_ev_d_index (d : disk) e : touches_index e = false -> d_index (apply_ev flat_ops d e) =
+       d_index d
+   Theorem apply_ev_d_overflow (d : disk) e : touches_overflow e = false -> d_overflow (apply_ev
+       flat_ops d e) = d_overflow d
+   Theorem apply_ev_d_imeta (d : disk) e : touches_imeta e = false -> d_imeta (apply_ev flat_ops d e) =
+       d_imeta d
+   Theorem apply_ev_d_dbmeta (d : disk) e : touches_dbmeta e = false -> d_dbmeta (apply_ev flat_ops d e)
+       = d_dbmeta d
+   Theorem apply_ev_d_lock (d : disk) e : touches_lock e = false -> d_lock (apply_ev flat_ops d e) =
+       d_lock d
+   Theorem apply_ev_d_bac (d : disk) e : touches_bac e = false -> d_bac (apply_ev flat_ops d e) = d_bac
+       d
+   Theorem apply_ev_d_orphans (d : disk) e : touches_orphans e = false -> d_orphans (apply_ev flat_ops d
+       e) = d_orphans d
+   Corollary apply_ev_reads (d : disk) e : touches_log e = false -> olog (apply_ev flat_ops d e) = olog
+       d /\ abs (apply_ev flat_ops d e) = abs d /\ ptr_of (apply_ev flat_ops d e) = ptr_of d /\ (forall
+       sl, read_kv (apply_ev flat_ops d e) sl = read_kv d sl) /\ (forall k sl, matchf (apply_ev flat_ops
+       d e) k sl = matchf d k sl) /\ (DiskOK d -> DiskOK (apply_ev flat_ops d e))
+*)
 From Coq Require Import ZArith Lia ZifyN ZifyNat ZifyBool Permutation Sorted.
 From Pogreb Require Import Base BaseLemmas Crc Bytes Record RecordProofs Flat Spec DB DBInv.
 Ltac Zify.zify_post_hook ::= Z.div_mod_to_equations.
@@ -1906,4 +2366,91 @@ Proof.
     apply rec_of_olog in Hlog; [|apply Hd]. assert (r' = r) by congruence. subst r'.
     exists (rv r). rewrite Erd, Erk. split; [reflexivity|exact Eget].
   - apply ptr_of_None. exact Hptr.
+Qed.
+
+(* ================================================================================================ *)
+(* 8. Frame table: for every component of the disk, the events that can change it                     *)
+Definition touches_index (e : fsev) : bool :=
+  match e with EIndex _ | ECreate FMain | ERemove FMain | ERename FMain _ => true | _ => false end.
+Definition touches_overflow (e : fsev) : bool :=
+  match e with ECreate FOverflow | ERemove FOverflow | ERename FOverflow _ => true | _ => false end.
+Definition touches_imeta (e : fsev) : bool :=
+  match e with
+  | EGobIndex _ | ECreate FIndexMeta | ETrunc FIndexMeta _ | ERemove FIndexMeta | ERename FIndexMeta _ => true
+  | _ => false
+  end.
+Definition touches_dbmeta (e : fsev) : bool :=
+  match e with
+  | EGobDb _ | ECreate FDbMeta | ETrunc FDbMeta _ | ERemove FDbMeta | ERename FDbMeta _ => true
+  | _ => false
+  end.
+Definition touches_lock (e : fsev) : bool :=
+  match e with ECreate FLock | ERemove FLock | ERename FLock _ => true | _ => false end.
+Definition touches_bac (e : fsev) : bool :=
+  match e with ECreate (FBac _) | ERemove (FBac _) | ERename _ _ => true | _ => false end.
+Definition touches_orphans (e : fsev) : bool :=
+  match e with
+  | ERemove (FSeg _ _) | ERemove (FSegMeta _ _) | ERename (FSeg _ _) _ | ERename (FSegMeta _ _) _ => true
+  | _ => false
+  end.
+
+Lemma file_removed_frame f (d : disk) :
+  (match f with FMain => True | _ => d_index (file_removed f d) = d_index d end) /\
+  (match f with FOverflow => True | _ => d_overflow (file_removed f d) = d_overflow d end) /\
+  (match f with FIndexMeta => True | _ => d_imeta (file_removed f d) = d_imeta d end) /\
+  (match f with FDbMeta => True | _ => d_dbmeta (file_removed f d) = d_dbmeta d end) /\
+  (match f with FLock => True | _ => d_lock (file_removed f d) = d_lock d end) /\
+  (match f with FBac _ => True | _ => d_bac (file_removed f d) = d_bac d end) /\
+  (match f with FSeg _ _ | FSegMeta _ _ => True | _ => d_orphans (file_removed f d) = d_orphans d end).
+Proof. destruct f; repeat split. Qed.
+
+Theorem apply_ev_d_index (d : disk) e : touches_index e = false -> d_index (apply_ev flat_ops d e) = d_index d.
+Proof.
+  destruct e as [f|f|id seq off r|i|id seq m|i|sd|f n|f g|f|f]; cbn [touches_index]; intros H;
+    try discriminate; try reflexivity; try (destruct f; try discriminate; reflexivity).
+Qed.
+Theorem apply_ev_d_overflow (d : disk) e : touches_overflow e = false -> d_overflow (apply_ev flat_ops d e) = d_overflow d.
+Proof.
+  destruct e as [f|f|id seq off r|i|id seq m|i|sd|f n|f g|f|f]; cbn [touches_overflow]; intros H;
+    try discriminate; try reflexivity; try (destruct f; try discriminate; reflexivity).
+Qed.
+Theorem apply_ev_d_imeta (d : disk) e : touches_imeta e = false -> d_imeta (apply_ev flat_ops d e) = d_imeta d.
+Proof.
+  destruct e as [f|f|id seq off r|i|id seq m|i|sd|f n|f g|f|f]; cbn [touches_imeta]; intros H;
+    try discriminate; try reflexivity; try (destruct f; try discriminate; reflexivity).
+Qed.
+Theorem apply_ev_d_dbmeta (d : disk) e : touches_dbmeta e = false -> d_dbmeta (apply_ev flat_ops d e) = d_dbmeta d.
+Proof.
+  destruct e as [f|f|id seq off r|i|id seq m|i|sd|f n|f g|f|f]; cbn [touches_dbmeta]; intros H;
+    try discriminate; try reflexivity; try (destruct f; try discriminate; reflexivity).
+Qed.
+Theorem apply_ev_d_lock (d : disk) e : touches_lock e = false -> d_lock (apply_ev flat_ops d e) = d_lock d.
+Proof.
+  destruct e as [f|f|id seq off r|i|id seq m|i|sd|f n|f g|f|f]; cbn [touches_lock]; intros H;
+    try discriminate; try reflexivity; try (destruct f; try discriminate; reflexivity).
+Qed.
+Theorem apply_ev_d_bac (d : disk) e : touches_bac e = false -> d_bac (apply_ev flat_ops d e) = d_bac d.
+Proof.
+  destruct e as [f|f|id seq off r|i|id seq m|i|sd|f n|f g|f|f]; cbn [touches_bac]; intros H;
+    try discriminate; try reflexivity; try (destruct f; try discriminate; reflexivity).
+Qed.
+Theorem apply_ev_d_orphans (d : disk) e : touches_orphans e = false -> d_orphans (apply_ev flat_ops d e) = d_orphans d.
+Proof.
+  destruct e as [f|f|id seq off r|i|id seq m|i|sd|f n|f g|f|f]; cbn [touches_orphans]; intros H;
+    try discriminate; try reflexivity; try (destruct f; try discriminate; reflexivity).
+Qed.
+
+(* events that touch neither the log nor anything a read or the invariant looks at, except as stated *)
+Corollary apply_ev_reads (d : disk) e :
+  touches_log e = false ->
+  olog (apply_ev flat_ops d e) = olog d /\ abs (apply_ev flat_ops d e) = abs d /\
+  ptr_of (apply_ev flat_ops d e) = ptr_of d /\
+  (forall sl, read_kv (apply_ev flat_ops d e) sl = read_kv d sl) /\
+  (forall k sl, matchf (apply_ev flat_ops d e) k sl = matchf d k sl) /\
+  (DiskOK d -> DiskOK (apply_ev flat_ops d e)).
+Proof.
+  intros H. pose proof (apply_ev_same_log d e H) as Hs.
+  split; [apply same_log_olog; exact Hs|]. split; [apply same_log_abs; exact Hs|].
+  split; [apply same_log_ptr_of; exact Hs|]. split; [intros sl; apply same_log_read_kv; exact Hs|].
+  split; [intros k sl; apply same_log_matchf; exact Hs|apply same_log_DiskOK; exact Hs].
 Qed.
